@@ -823,7 +823,8 @@ func legacyFindings(k *h.Keys, base []byte, c *h.VCase, desc, class string) []h.
 			}
 		}
 		named := func(d h.SDesc) bool {
-			if len(c.Opts.Groups) == 0 && len(c.Opts.Objects) == 0 {
+			if c.Opts.LegacyAll || len(c.Opts.Groups) == 0 && len(c.Opts.Objects) == 0 {
+				// OptVerifyLegacyAll adds every grouped object to whatever else is named
 				return d.GroupID() != 0
 			}
 			for _, g := range c.Opts.Groups {
